@@ -152,9 +152,24 @@ def run_dag(scn, *, hooks_factory=None, keep=False, extra_hooks=None, before_run
             write_plan(ctl, scn.get('pre_gen', 0))
             b0 = Built(spec)
             lab0 = labtech.Lab(storage=make_storage(scn.get('storage', 'local'), store),
-                               runner_backend=make_backend(scn.get('pre_backend', 'serial')),
+                               runner_backend=SpyBackend(make_backend(scn.get('pre_backend', 'serial')), Trace(), Hooks()),
                                max_workers=scn.get('pre_workers'), context=ctx)
-            lab0.run_tasks([b0.inst(n) for n in pre], disable_progress=True, disable_top=True)
+            try:
+                lab0.run_tasks([b0.inst(n) for n in pre], disable_progress=True, disable_top=True)
+            except HarnessAbort as ex:
+                # the spy's spin detector fired while warming the cache
+                out.exc = ex
+                out.aborted = 'spin (cache pre-run): ' + str(ex)
+                out.exc_info = exc_info(ex)
+                out.result = None
+                out.events = events.read_events(ctl)
+                out.rests = []
+                out.cached_before = set()
+                out.cached_after = set()
+                out.ledger = []
+                out.logs = []
+                out.sim_batches = None
+                return out
             cached = {n for n in closure(spec, pre) if cacheable(spec, n)}
             del lab0, b0
             ledger.close_fds()
